@@ -18,6 +18,13 @@ CLAIMS = {
         note="Partial: the clause 'an out-of-scope package publishes no facts' is checked per analyzer entry (K3) where registered; per-file filtering inside whole-package AST walks is outside. "
              "Stubs: types.NewPackage/(*types.Package).Path (symbolic path), (*ast.CommentGroup).Text (single-line contract, validated natively on samples).",
     ),
+    "C05": dict(
+        text="For every sequence of <=N constraints (sources, sinks, flows, annotations, controlled triggers) over S symbolic sites, in every observation order, the solver shows: "
+             "a conflict is recorded iff a nil source reaches a non-nil sink in the constraint graph; every recorded explanation is a path of observed constraints meeting at one site; "
+             "without a conflict each site's verdict equals reachability. Site identities stay symbolic, so the verdict covers all site assignments within the bound, not samples.",
+        note="Bounded (see evidence.coverage.bounds). L2 replaces primitivizer.site/fullTrigger by a contract stub under symx; the native replay runs the real ones on sampled paths and on every counterexample. "
+             "Found and fixed (fix: commit in /repo): controlled triggers with a pre-determined controller were never activated.",
+    ),
 }
 
 # reasons for every property not (yet) claimed
@@ -26,5 +33,5 @@ NOT_APPLICABLE = {
     "C16": "The quantifier is goroutine interleavings over the whole analysis heap; symx has no thread model and no installed solver-based engine explores Go schedules.",
     "C18": "Everything the property depends on is environment (process cwd captured at init, filepath.Rel, driver cwd); after stubbing those by contract the residual repo code is a one-line wrapper.",
 }
-for _p in ["C02", "C03", "C04", "C05", "C06", "C07", "C08", "C09", "C10", "C11", "C13", "C14", "C15", "C17", "C20"]:
+for _p in ["C02", "C03", "C04", "C06", "C07", "C08", "C09", "C10", "C11", "C13", "C14", "C15", "C17", "C20"]:
     NOT_APPLICABLE.setdefault(_p, "kernel check not yet registered (in progress; see DESIGN.md section 4)")
